@@ -8,7 +8,7 @@ PROPS = {}
 
 
 NOT_YET = {}
-HOOK_COMMITS = []
+HOOK_COMMITS = ['f017b0b790465086183ecbf250c53f6db2d5bf6b', '293f178a895aff0e9b75affc20f96bc07df8a315', '75f0ae304fc8ed4bd9d0c6dd47629e437890e6b9']
 ENGINES = [
     {'name': 'E1', 'path': 'harness/ + rt/vh.h', 'kind_free_text':
      'sequential differential harnesses (real code in lock-step with a reference model) under ASan+UBSan',
@@ -89,7 +89,9 @@ prop('C17',
             args={'quick': ['--extra', 'traj'], 'thorough': ['--extra', 'traj']},
             needs_min={'trajectory_steps': 1 << 28})],
      assumptions=['64-bit arithmetic (16807*s) % (2^31-1) is the definition'],
-     exhaustive_note='exh stage covers all 2^31-2 valid states; thorough traj stage walks the whole orbit of 1',
+     exhaustive_claim=True, exhaustive_stage='exh',
+     exhaustive_note='exhaustive: true refers to the exh stage, which feeds every one of the 2^31-2 valid states (the '
+                     'whole input space the property quantifies over) to rand31_r; the thorough traj stage walks the whole orbit of 1',
      engine='E1', technique='runtime monitoring: exhaustive differential execution against 64-bit reference '
      'arithmetic; UBSan sample; orbit walk',
      level_text='Exploration, exhaustive over the state space: every one of the 2^31-2 states is fed to the real '
